@@ -226,9 +226,95 @@ pub fn long_family<F: Fl>(job: &Job, kmax: usize, out: &mut Out) {
     }
 }
 
+/// Every history of at most `depth` operations, **without merging states**:
+/// the explicit-state search above identifies two histories that lead to the
+/// same adjacency lists, which is sound only as long as the lists are the
+/// whole state of a node. Hidden state (a key index, a cache, a counter kept
+/// next to the lists) survives a history and changes what a later call does;
+/// here every history is therefore executed as it stands, on one object, and
+/// the invariant / contract is checked on its last transition. Edge values are
+/// the position of the call in the history, so every edge is recognisable.
+pub fn deep_histories<F: Fl>(job: &Job, n: usize, depth: usize, out: &mut Out) {
+    let prop = job.property.as_str();
+    let alpha = alphabet(n, 1);
+    let with_val = |op: &Op, d: usize| -> Op {
+        let e = (d + 1) as E;
+        match *op {
+            Op::Connect(u, v, _) => Op::Connect(u, v, e),
+            Op::TryConnect(u, v, _) => Op::TryConnect(u, v, e),
+            o => o,
+        }
+    };
+    // explicit stack of (history, next op index)
+    let mut h: Vec<Op> = Vec::new();
+    let mut idx: Vec<usize> = vec![0];
+    let mut first: Vec<usize> = Vec::new();
+    loop {
+        let d = h.len();
+        let i = *idx.last().unwrap();
+        if i >= alpha.len() {
+            idx.pop();
+            if h.pop().is_none() {
+                break;
+            }
+            first.truncate(h.len());
+            continue;
+        }
+        *idx.last_mut().unwrap() += 1;
+        if d == 1 && (first[0] * alpha.len() + i) % job.nshards != job.shard {
+            continue;
+        }
+        let op = with_val(&alpha[i], d);
+        crate::progress::tick();
+        let w = match World::<F>::build(n, &h) {
+            Ok(w) => w,
+            Err(_) => continue,
+        };
+        let pre = match w.observe() {
+            Ok(o) => o,
+            Err(_) => continue,
+        };
+        let ret = w.apply(&op);
+        out.stats.inc("transitions");
+        out.stats.inc("evaluations");
+        out.stats.inc("histories_unmerged");
+        if d >= 2 {
+            out.stats.inc("nontrivial");
+        }
+        out.stats.max("max_depth", (d + 1) as u64);
+        let order = (d as u64 + 1) * 100 + n as u64;
+        let post = if ret.is_fail() { None } else { w.observe().ok() };
+        let mut violated = ret.is_fail();
+        if prop == "C03" {
+            let chk = match &post {
+                Some(post) => check_contract(F::DIRECTED, &pre, &op, &ret, post),
+                None => check_contract(F::DIRECTED, &pre, &op, &ret, &pre),
+            };
+            if let Err((code, detail)) = chk {
+                violated = true;
+                out.report(Violation { property: prop.into(), engine: "seqx".into(), flavour: F::NAME.into(), class: format!("{}/{}", code, shape_tag(&pre, &op)), what: format!("{} after the history [{}] (executed on one object): {}", op.show(), show_history(&h), detail), case: mk_case(F::NAME, n, &h, Some(&op)), order });
+            }
+        } else if let Some(post) = &post {
+            if let Err((code, detail)) = state_invariant(prop, &w, post) {
+                violated = true;
+                out.report(Violation { property: prop.into(), engine: "seqx".into(), flavour: F::NAME.into(), class: format!("state/{}/after-{}/{}", code, op.name(), shape_tag(&pre, &op)), what: format!("after [{}; {}] (executed on one object): {}", show_history(&h), op.show(), detail), case: mk_case(F::NAME, n, &h, Some(&op)), order });
+            }
+        }
+        if !violated && d + 1 < depth {
+            h.push(op);
+            first.push(i);
+            idx.push(0);
+        }
+    }
+}
+
 pub fn explore<F: Fl>(job: &Job, out: &mut Out) {
     if let Some(k) = job.params.get("long").and_then(|v| v.as_u64()) {
         return long_family::<F>(job, k as usize, out);
+    }
+    if let Some(d) = job.params.get("deep").and_then(|v| v.as_u64()) {
+        let n = job.params.get("n").and_then(|v| v.as_u64()).unwrap_or(2) as usize;
+        return deep_histories::<F>(job, n, d as usize, out);
     }
     let p: SeqParams = serde_json::from_value(job.params.clone()).expect("seq params");
     let prop = job.property.as_str();
